@@ -255,6 +255,7 @@ def check_kernel_1d(ctx, rule, fi, prefix="kernel1d"):
         env = Env()
         in_loop = False
         first = last = None
+        gap_branch = cons_branch = False
         for step in p:
             if step[0] == "for" and step[1] is loop:
                 in_loop = step[2]
@@ -266,6 +267,8 @@ def check_kernel_1d(ctx, rule, fi, prefix="kernel1d"):
                     last = step[2]
                 if "is_consecutive" in t:
                     facts["nan"].append(("cond", t, step[2]))
+                    gap_branch = step[2] is False
+                    cons_branch = step[2] is True
             if step[0] == "stmt" and isinstance(step[1], ast.Assign):
                 st = step[1]
                 tgt = U(st.targets[0])
@@ -293,7 +296,10 @@ def check_kernel_1d(ctx, rule, fi, prefix="kernel1d"):
                         core = core.func.value
                     facts["over"].append((last, slice_bounds(env, core), U(st)))
                 if not in_loop and tgt in ("underflow", "overflow") and U(st.value) in ("np.nan", "numpy.nan"):
-                    facts["nan"].append(("store", tgt, None))
+                    if gap_branch:
+                        facts["nan"].append(("store", tgt, None))
+                    if cons_branch:
+                        facts["nan"].append(("wrong-branch", tgt, None))
             env.step(step)
 
     # the per-bin results are final: outside the sweep the result arrays are only allocated (zeros), never replaced
@@ -349,7 +355,7 @@ def check_kernel_1d(ctx, rule, fi, prefix="kernel1d"):
             problems["over"].append(f"`{txt}`: overflow must be the weight of {{d > R_last}}")
     nan_cond = [f for f in facts["nan"] if f[0] == "cond"]
     nan_store = {f[1] for f in facts["nan"] if f[0] == "store"}
-    if not nan_cond or nan_store != {"underflow", "overflow"}:
+    if not nan_cond or nan_store != {"underflow", "overflow"} or any(f[0] == "wrong-branch" for f in facts["nan"]):
         problems["nan"].append("under/overflow are not both reset to NaN under the not-is_consecutive test")
     else:
         good["nan"].append("underflow = overflow = nan when bins are not consecutive")
